@@ -33,7 +33,7 @@ Definition lnarsese_eqb (a b : lnarsese) : bool :=
 (* ---- the class of a value (computed from the names of its atoms) ----
    0: inside the domain of C11;  1: known class K4 (a name with the pattern [-_] - [-_]);
    2: outside the domain: a name with a character that is a library identifier but no atom_char of the
-      grammar (emoji above U+1F2FF, alphanumerics outside the categories L and N) *)
+      grammar (emoji above U+1F2FF, alphanumerics outside the categories L and N);  3: see below *)
 Fixpoint lterm_names (x : lterm) : list str :=
   match x with
   | LAtom _ n => [n]
@@ -46,10 +46,19 @@ Definition lnarsese_term (v : lnarsese) : lterm :=
   | NSentence s => ls_term s
   | NTask k => ls_term (lt_sentence k)
   end.
+Fixpoint lterm_atoms (x : lterm) : list (str * str) :=
+  match x with
+  | LAtom p n => [(p, n)]
+  | LCompound _ ts | LSet _ ts _ => flat_map lterm_atoms ts
+  | LStatement _ s p => lterm_atoms s ++ lterm_atoms p
+  end.
+(* 3: outside the domain (lexical values only): the placeholder prefix `_` with a non-empty name -- the
+   library prints and re-parses `_a` as Atom("_","a"), the grammar's `"_"+` alternative stops after `_` *)
 Definition class_of (v : lnarsese) : N :=
   let names := lterm_names (lnarsese_term v) in
   if negb (forallb (forallb (atom_charb ucls_tab)) names) then 2
   else if negb (forallb (k4_free) names) then 1
+  else if existsb (fun a => str_eqb (fst a) [95] && negb (str_eqb (snd a) [])) (lterm_atoms (lnarsese_term v)) then 3
   else 0.
 
 (* the interpreter on the regenerated grammar *)
